@@ -161,6 +161,11 @@ int main(int argc, char *argv[])
             msg_length = Avtp_Ntscf_GetNtscfDataLength((Avtp_Ntscf_t*)cf_pdu);
         }
 
+        // The fixed VSS header must lie within the received datagram
+        if ((uint64_t)res < proc_bytes + AVTP_VSS_FIXED_HEADER_LEN) {
+            continue;
+        }
+
         // Check if the control packet payload is a ACF GPC.
         acf_pdu = &pdu[proc_bytes];
         acf_type = Avtp_AcfCommon_GetAcfMsgType((Avtp_AcfCommon_t*)acf_pdu);
@@ -172,23 +177,38 @@ int main(int argc, char *argv[])
         // Parse the VSS Packet and print contents on the STDOUT
         Vss_AddrMode_t addrMode;
         VssPath_t path;
+        uint64_t vss_avail = (uint64_t)res - proc_bytes;
         addrMode = Avtp_Vss_GetAddrMode((Avtp_Vss_t*)acf_pdu);
-        Avtp_Vss_GetVssPath((Avtp_Vss_t*)acf_pdu, &path);
+
+        // The path (and its length prefix) must lie within the datagram too
+        if (addrMode == VSS_INTEROP_MODE) {
+            if (vss_avail < AVTP_VSS_FIXED_HEADER_LEN + 2) continue;
+        } else if (addrMode != VSS_STATIC_ID_MODE) {
+            continue;
+        }
+        uint16_t path_size = Avtp_Vss_CalcVssPathLength((Avtp_Vss_t*)acf_pdu);
+        if (path_size < 2 || vss_avail < (uint64_t)AVTP_VSS_FIXED_HEADER_LEN + path_size) {
+            // (a path size below 2 means the 16-bit size wrapped around)
+            continue;
+        }
 
         if (addrMode == VSS_INTEROP_MODE) {
-            char path_string[path.vss_interop_path.path_length+1];
-            memset(path_string, '\0', path.vss_interop_path.path_length+1);
-            memcpy(path_string, path.vss_interop_path.path, path.vss_interop_path.path_length);
+            char path_string[path_size];
+            memset(path_string, '\0', path_size);
+            path.vss_interop_path.path = path_string;
+            Avtp_Vss_GetVssPath((Avtp_Vss_t*)acf_pdu, &path);
             printf("VSS Path: %s, ", path_string);
-        } else if (addrMode == VSS_STATIC_ID_MODE) {
+        } else {
+            Avtp_Vss_GetVssPath((Avtp_Vss_t*)acf_pdu, &path);
             printf("VSS Path: %d, ", path.vss_static_id_path);
         }
 
-        VssData_t data;
+        // Only float values are printed; other datatypes need caller-provided buffers
         Vss_Datatype_t dt = Avtp_Vss_GetDatatype((Avtp_Vss_t*)acf_pdu);
-        Avtp_Vss_GetVssData((Avtp_Vss_t*)acf_pdu, &data);
-
-        if (dt == VSS_FLOAT) {
+        if (dt == VSS_FLOAT &&
+            vss_avail >= (uint64_t)AVTP_VSS_FIXED_HEADER_LEN + path_size + sizeof(float)) {
+            VssData_t data;
+            Avtp_Vss_GetVssData((Avtp_Vss_t*)acf_pdu, &data);
             printf("VSS Value: %f\n", data.data_float);
         }
 
